@@ -100,6 +100,30 @@ SimIdem(s) ==
        THEN RemoveKey(a.k, NoCas, ik, Sel(Q(IdemTTLs), h, 31))
        ELSE DoPublish([a EXCEPT !.ik = ik, !.ittl = Sel(Q(IdemTTLs), h, 31), !.cas = NoCas, !.km = IF (h \div 5) % 3 = 0 THEN a.km ELSE ""])
 
+\* C19 witness, step 2: an idempotency key whose saved result has EXPIRED is saved again with the longest TTL (the queue
+\* item of the first save may still be queued); step 3 is SimIdemRetry after the cleaner ran: must be suppressed
+MaxIdemTTL == CHOOSE x \in IdemTTLs : \A y \in IdemTTLs : x >= y
+SimIdemAgain(s) ==
+  LET h == H(s + 210)
+      S == {k \in DOMAIN idem : idem[k].exp <= now} \cup (DOMAIN gidem \ DOMAIN idem) \cup {i.k : i \in iq}
+      a == FreeArgs(h)
+  IN S # {} /\
+     LET ik == Sel(Q(S), h, 13) IN
+     ~IdemHit(ik) /\
+     IF (h \div 3) % 3 = 0 /\ a.k \in DOMAIN st
+       THEN RemoveKey(a.k, NoCas, ik, MaxIdemTTL)
+       ELSE DoPublish([a EXCEPT !.ik = ik, !.ittl = MaxIdemTTL, !.cas = NoCas, !.km = "", !.v = 0, !.ve = ""])
+\* a retry inside the TTL of the saved result (Publish or Remove)
+SimIdemRetry(s) ==
+  LET h == H(s + 230)
+      S == {k \in DOMAIN idem : idem[k].exp > now}
+      a == FreeArgs(h)
+  IN S # {} /\
+     LET ik == Sel(Q(S), h, 13) IN
+     IF (h \div 3) % 3 = 0
+       THEN RemoveKey(a.k, NoCas, ik, Sel(Q(IdemTTLs), h, 31))
+       ELSE DoPublish([a EXCEPT !.ik = ik, !.ittl = Sel(Q(IdemTTLs), h, 31)])
+
 SimRemove(s) ==
   LET h == H(s + 130)
       ik == IF (h \div 7) % 3 = 0 THEN Sel(Q(IdemKeys), h, 13) ELSE ""
@@ -123,21 +147,24 @@ SimReadStream(s) ==
   LET h == H(s + 190)
   IN ReadStream(Sel(Q(Sinces), h, 1), Sel(Q(Limits), h, 29), Sel(BoolQ, h, 31))
 
+Focus19 == FALSE      \* sim-c19.cfg: more idempotency / version traffic
 InP2 == step.act = "ExpirePhase2" /\ pend # <<>>
 
 SimNext ==
   IF Manual /\ InP2 THEN ExpirePhase2 /\ w' = 0
   ELSE
-  \/ (~Manual /\ (SweepExpire \/ SweepRemove)) /\ w' = 0
+  \/ (~Manual /\ (SweepExpire \/ SweepRemove \/ SweepIdem)) /\ w' = 0
   \/ \E s \in 1..(IF Manual THEN 6 ELSE 1) : ExpirePhase2 /\ w' = s
   \/ \E s \in 1..(IF Manual /\ Candidates(now) # {} THEN 3 ELSE 1) : ExpirePhase1 /\ w' = s
   \/ \E s \in 1..3 : Tick /\ w' = s
   \/ \E s \in 1..3 : SimPublish(s) /\ w' = s
   \/ \E s \in 1..1 : SimCasHit(s) /\ w' = s
   \/ \E s \in 1..2 : SimMulti(s) /\ w' = s
-  \/ \E s \in 1..1 : SimVersioned(s) /\ w' = s
+  \/ \E s \in 1..(IF Focus19 THEN 3 ELSE 1) : SimVersioned(s) /\ w' = s
   \/ \E s \in 1..2 : SimRefresh(s) /\ w' = s
-  \/ \E s \in 1..1 : SimIdem(s) /\ w' = s
+  \/ \E s \in 1..(IF Focus19 THEN 3 ELSE 1) : SimIdem(s) /\ w' = s
+  \/ \E s \in 1..(IF Focus19 THEN 4 ELSE 2) : SimIdemAgain(s) /\ w' = s
+  \/ \E s \in 1..(IF Focus19 THEN 3 ELSE 1) : SimIdemRetry(s) /\ w' = s
   \/ \E s \in 1..1 : SimRemove(s) /\ w' = s
   \/ \E s \in 1..1 : SimRemoveHit(s) /\ w' = s
   \/ \E s \in 1..2 : SimReadState(s) /\ w' = s
